@@ -98,7 +98,8 @@ pub fn main(a: Args) -> i32 {
     let _ = std::os::unix::fs::symlink(&copia, format!("{}/copia", bindir));
     let mut r = Rng::new(a.seed ^ 0xC13);
     let nhist = if a.tier == "thorough" { 300 } else { 60 };
-    let pool: Vec<Vec<u8>> = vec![b"".to_vec(), b"A".to_vec(), b"BB".to_vec(), b"hello world".to_vec(), vec![0x58; 3000], (0..=255u8).collect(), vec![0x5a; 300_000]];
+    let pool: Vec<Vec<u8>> = vec![b"".to_vec(), b"A".to_vec(), b"BB".to_vec(), b"hello world".to_vec(), vec![0x58; 3000], (0..=255u8).collect(), vec![0x5a; 300_000],
+        { let mut v = vec![0x41u8; 8192]; v.extend(vec![0u8; 16384]); v }];
     // "d" as a FILE clashes with the directory of d/x, d/y, d/z'q: one tree never holds both, two clients (or a client and
     // the hub) may
     // `.copiarc` and `.copia-hooks/pre` START like the control directory `.copia` without being inside it: the hub lists
